@@ -96,23 +96,62 @@ def linkStep (s : St) (i src : Id) (reason : Option Req) : St :=
     (s.set i (addRdep (s.get i) src)).set src (setReason ((s.set i (addRdep (s.get i) src)).get src) i reason)
   else s
 
+/-- first lines of `add_dist`: the node object for the key, created when the key is new -/
+def findOrCreate (s : St) (key : Name) (mta : Option Meta) : St × Id :=
+  match s.lookup key with
+  | some i => (s, i)
+  | none =>
+    ({ s with heap := s.heap.push { key := key, md := mta, deps := [], rdeps := [], complete := false },
+              nodes := s.nodes ++ [(key, s.heap.size)] }, s.heap.size)
+
+/-- "a new extra is requested of an already solved node": the node is re-opened and its own metadata is applied
+again; otherwise what is applied is what the caller passed -/
+def reopenForExtras (s : St) (i : Id) (mta : Option Meta) (reason : Option Req) : M (St × Option Meta) :=
+  match reason, (s.get i).md with
+  | some q, some m =>
+    if !q.extras.isEmpty then do
+      let ex ← nodeExtras s i
+      if q.extras.any (fun e => !ex.contains e) then pure (s.set i { s.get i with complete := false }, some m)
+      else pure (s, mta)
+    else pure (s, mta)
+  | _, _ => pure (s, mta)
+
+def linkOpt (s : St) (i : Id) (source : Option Id) (reason : Option Req) : St :=
+  match source with
+  | some src => linkStep s i src reason
+  | none => s
+
+/-- the version of a solved distribution that the new edge's specifier excludes (then the node is invalidated) -/
+def excludedVersion (s : St) (i : Id) (reason : Option Req) : Bool :=
+  match (s.get i).md, reason with
+  | some m, some q =>
+    if !m.isMeta then
+      match m.version with
+      | some v => !acceptsReq s q v
+      | none => false
+    else false
+  | _, _ => false
+
+/-- accumulate the node sets returned by nested `add_dist` calls (`add_nodes |= ...`) -/
+def accOut (out o : List Id) : List Id := out ++ o.filter (fun x => !out.contains x)
+
 mutual
 /-- `remove_dists(node, remove_upstream)` -/
 def removeDists : Nat → St → Id → Bool → M St
   | 0, _, _, _ => throw Err.fuel
-  | fuel+1, s, i, up => do
+  | fuel+1, s, i, up =>
     let n := s.get i
-    if !s.hasKey n.key then return s
+    if !s.hasKey n.key then pure s else do
     let s1 : St :=
       if up then
         let s' := { s with nodes := s.nodes.filter (·.1 ≠ n.key) }
         n.rdeps.foldl (fun st r => let rn := st.get r; st.set r { rn with deps := rn.deps.filter (·.1 ≠ i) }) s'
       else s
     let deps := (s1.get i).deps
-    let s2 ← deps.foldlM (fun st (d : Id × Option Req) => do
+    let s2 ← deps.foldlM (fun st (d : Id × Option Req) =>
       let dn := st.get d.1
       if up || dn.key ≠ n.key then
-        if !dn.rdeps.contains i then throw Err.keyError
+        if !dn.rdeps.contains i then throw Err.keyError else
         let dn' := { dn with rdeps := dn.rdeps.filter (· ≠ i) }
         let st' := st.set d.1 dn'
         if dn'.rdeps.isEmpty then removeDists fuel st' d.1 true else pure st'
@@ -126,39 +165,14 @@ def removeDists : Nat → St → Id → Bool → M St
 def addDist : Nat → St → (Name × Option Meta) → Option Id → Option Req → Orders → M (St × List Id)
   | 0, _, _, _, _, _ => throw Err.fuel
   | fuel+1, s, (key, mta), source, reason, order => do
-    let (s, i) := match s.lookup key with
-      | some i => (s, i)
-      | none =>
-        let i := s.heap.size
-        ({ s with heap := s.heap.push { key := key, md := mta, deps := [], rdeps := [], complete := false },
-                  nodes := s.nodes ++ [(key, i)] }, i)
-    let mut s := s
-    let mut toApply := mta
-    match reason, (s.get i).md with
-    | some q, some m =>
-      if !q.extras.isEmpty then
-        let ex ← nodeExtras s i
-        if q.extras.any (fun e => !ex.contains e) then
-          toApply := some m
-          s := s.set i { s.get i with complete := false }
-    | _, _ => pure ()
-    match source with
-    | some src => s := linkStep s i src reason
-    | none => pure ()
-    let mut out : List Id := []
-    match toApply with
-    | some m =>
-      let (s', o) ← updateDists fuel s i m order
-      s := s'; out := o
-    | none => pure ()
-    match (s.get i).md, reason with
-    | some m, some q =>
-      if !m.isMeta then
-        match m.version with
-        | some v => if !acceptsReq s q v then s ← removeDists fuel s i false
-        | none => pure ()
-    | _, _ => pure ()
-    if !s.hasKey (s.get i).key then throw Err.gone
+    let (s, i) := findOrCreate s key mta
+    let (s, toApply) ← reopenForExtras s i mta reason
+    let s := linkOpt s i source reason
+    let (s, out) ← match toApply with
+      | some m => updateDists fuel s i m order
+      | none => pure (s, [])
+    let s ← if excludedVersion s i reason then removeDists fuel s i false else pure s
+    if !s.hasKey (s.get i).key then throw Err.gone else
     pure (s, out)
 
 /-- `_update_dists(node, metadata)` -/
@@ -168,14 +182,11 @@ def updateDists : Nat → St → Id → Meta → Orders → M (St × List Id)
     let s := s.set i { s.get i with md := some m }
     let ex ← nodeExtras s i
     let seq : List (Option String) := (order.lookup ex).getD (none :: ex.map some)
-    let mut st := s
-    let mut out : List Id := [i]
-    for e in seq do
-      for q in (← m.requires e) do
-        let (st', o) ← addDist fuel st (keyOfReq q, none) (some i) (some q) order
-        st := st'
-        out := out ++ o.filter (fun x => !out.contains x)
-    pure (st, out)
+    seq.foldlM (fun (acc : St × List Id) e => do
+      let qs ← m.requires e
+      qs.foldlM (fun (acc : St × List Id) q => do
+        let (st', o) ← addDist fuel acc.1 (keyOfReq q, none) (some i) (some q) order
+        pure (st', accOut acc.2 o)) acc) (s, [i])
 end
 
 /-- requirements of a solved requirer that apply under the extras requested of it:
